@@ -1358,3 +1358,67 @@ Qed.
 
 Example key_string_example : key_string (126720, 5, 255) = [49; 50; 54; 55; 50; 48; 95; 53; 95; 50; 53; 53].
 Proof. vm_compute. reflexivity. Qed.
+
+(* ================================================================================================ *)
+(** * Part 14 — a stream that starts with stray non-first frames (e.g. the very first frame was lost) *)
+
+Theorem stream_with_prologue dok pro eps st :
+  (st = None \/ st = Some new_rec) ->
+  Forall (fun f => match f with [] => False | b0 :: _ => Z.land b0 31 <> 0 end) pro ->
+  Forall ep_ok eps -> chain_from (-1) eps ->
+  snd (run dok st (pro ++ stream_frames eps)) = repeat Nothing (length pro) ++ concat (stream_spec dok eps).
+Proof.
+  intros Hst Hpro Hok Hch. rewrite run_app.
+  destruct (prologue_ignored dok pro st Hst Hpro) as [st1 [R S1]]. rewrite R.
+  assert (Hs : settled (-1) st1).
+  { destruct S1 as [-> | ->]; [left; reflexivity | right; exists new_rec; split; [reflexivity | right; reflexivity]]. }
+  destruct (stream_refines dok eps (-1) st1 Hok Hch Hs) as [st' R']. rewrite R'. reflexivity.
+Qed.
+
+(** * n-ary interleaving as an inductive relation, and its link to the projections used above *)
+Inductive Interleave {A : Type} : list (key * list A) -> list (key * A) -> Prop :=
+| il_done : forall ss, Forall (fun s => snd s = []) ss -> Interleave ss []
+| il_step : forall ss1 k x xs ss2 h,
+    Interleave (ss1 ++ (k, xs) :: ss2) h -> Interleave (ss1 ++ (k, x :: xs) :: ss2) ((k, x) :: h).
+
+Lemma nodup_mid_unique {A} (ss1 ss2 : list (key * list A)) k xs k' ys :
+  NoDup (map fst (ss1 ++ (k, xs) :: ss2)) -> In (k', ys) (ss1 ++ (k, xs) :: ss2) ->
+  (k' = k /\ ys = xs) \/ (k' <> k /\ (In (k', ys) ss1 \/ In (k', ys) ss2)).
+Proof.
+  intros Hnd Hin. rewrite map_app in Hnd. cbn [map fst] in Hnd.
+  pose proof (NoDup_remove_2 _ _ _ Hnd) as Hk.
+  apply in_app_or in Hin. destruct Hin as [H|[E|H]].
+  - right. split; [|left; exact H]. intros ->. apply Hk. apply in_or_app. left.
+    change k with (fst (k, ys)). apply in_map. exact H.
+  - inversion E; subst. left. split; reflexivity.
+  - right. split; [|right; exact H]. intros ->. apply Hk. apply in_or_app. right.
+    change k with (fst (k, ys)). apply in_map. exact H.
+Qed.
+
+(** every interleaving of streams with distinct keys projects back onto each stream *)
+Theorem interleave_proj {A} (ss : list (key * list A)) h :
+  Interleave ss h -> NoDup (map fst ss) -> forall k xs, In (k, xs) ss -> proj k h = xs.
+Proof.
+  induction 1 as [ss Hall | ss1 k x xs ss2 h HI IH]; intros Hnd k' ys Hin.
+  - rewrite Forall_forall in Hall. specialize (Hall _ Hin). simpl in Hall. subst. reflexivity.
+  - assert (Hnd' : NoDup (map fst (ss1 ++ (k, xs) :: ss2))).
+    { rewrite map_app in *. exact Hnd. }
+    unfold proj. cbn [filter fst].
+    destruct (nodup_mid_unique ss1 ss2 k (x :: xs) k' ys Hnd Hin) as [[-> ->] | [Hne Hin']].
+    + rewrite key_eqb_refl. cbn [map snd]. f_equal.
+      apply (IH Hnd' k xs). apply in_or_app. right. left. reflexivity.
+    + apply key_eqb_neq in Hne. rewrite Hne. apply (IH Hnd' k' ys).
+      apply in_or_app. destruct Hin' as [H|H]; [left; exact H | right; right; exact H].
+Qed.
+
+(** C04 master statement phrased with the inductive interleaving: any number of streams with distinct keys, merged
+    in any order; the outputs of each stream are the set-based reference of its own episodes *)
+Theorem interleaved_streams isfast dok (ss : list (key * list (list Z))) h g k eps s :
+  Interleave ss h -> NoDup (map fst ss) -> In (k, stream_frames eps) ss ->
+  isfast (fst (fst k)) = Some true -> Forall ep_ok eps -> chain_from s eps -> settled s (lookup k g) ->
+  proj k (snd (dec_run isfast dok g h)) = concat (stream_spec (dok k) eps).
+Proof.
+  intros HI Hnd Hin Hf Hok Hch Hst.
+  apply (stream_in_history isfast dok h g k eps s Hf); try assumption.
+  exact (interleave_proj ss h HI Hnd k _ Hin).
+Qed.
